@@ -42,7 +42,7 @@ class _Obj:
 
     def __init__(self, ctx, module, expr):
         self.expr = expr
-        core = expr
+        core = _simplify_literal(expr)
         # strip views
         while True:
             if isinstance(core, ast.Attribute) and core.attr in VIEW_ATTRS:
@@ -76,6 +76,22 @@ class _Obj:
                 self.cls = (ALIGN_FUNCS[name], U(strip_tags(node)))
         self.params = sorted({n.id[1:] for n in walk_shared(core) if isinstance(n, ast.Name) and n.id.startswith(PARAM)})
         self.is_output = is_param(_root(core)) and _root(core).id[1:] in OUTPUT_PARAMS
+
+
+def _simplify_literal(expr):
+    """Σelem((x,)) and (x, y)[k] denote x / the k-th element."""
+    for _ in range(4):
+        if is_S(expr) and expr.func.id[1:] == "elem" and expr.args and isinstance(expr.args[0], (ast.Tuple, ast.List)) \
+                and len(expr.args[0].elts) == 1 and not isinstance(expr.args[0].elts[0], ast.Starred):
+            expr = expr.args[0].elts[0]
+        elif isinstance(expr, ast.Subscript) and isinstance(expr.value, (ast.Tuple, ast.List)) \
+                and isinstance(expr.slice, ast.Constant) and isinstance(expr.slice.value, int) \
+                and 0 <= expr.slice.value < len(expr.value.elts) \
+                and not any(isinstance(e, ast.Starred) for e in expr.value.elts):
+            expr = expr.value.elts[expr.slice.value]
+        else:
+            break
+    return expr
 
 
 def _root(expr):
